@@ -4,6 +4,8 @@ CONSTANTS
   MaxRecv = 6
   MaxOps = 14
   Rich = TRUE
-INVARIANT OneShotOnce
+INVARIANT SpentNotEnabled
 INVARIANT EachOnce
 INVARIANT OrdConsistent
+PROPERTY SpentNeverFires
+PROPERTY SpecIsLegal
